@@ -483,6 +483,40 @@ func RunChild(sc *Scenario) *Result {
 			}
 			c.rec(Event{Kind: "toggle", Info: "disable " + strings.Join(st.Mods, ",")})
 		case "manage":
+			if len(st.Conc) > 0 {
+				// overlapping requests: each caller changes what is wanted and then asks for a pass. Whichever pass runs
+				// when, once every call has returned every change has been seen by a pass that began after it.
+				var wg sync.WaitGroup
+				errs := make([]error, len(st.Conc)+1)
+				for k, cs := range st.Conc {
+					wg.Add(1)
+					go func(k int, cs Step) {
+						defer wg.Done()
+						hold(1 + k*300)
+						for _, n := range cs.Mods {
+							if cs.Op == "enable" {
+								c.mods[n].Enable()
+							} else {
+								c.mods[n].Disable()
+							}
+						}
+						c.rec(Event{Kind: "toggle", Info: cs.Op + " " + strings.Join(cs.Mods, ",")})
+						errs[k+1] = modules.ManageModules()
+					}(k, cs)
+				}
+				errs[0] = modules.ManageModules()
+				wg.Wait()
+				var firstErr error
+				for _, e := range errs {
+					c.snapshot("manage-concurrent", e, 0)
+					if e != nil && firstErr == nil {
+						firstErr = e
+					}
+				}
+				c.snapshot("manage-settled", firstErr, 0)
+				drainLate()
+				break
+			}
 			t0 := time.Now()
 			err := modules.ManageModules()
 			c.snapshot("manage", err, time.Since(t0))
